@@ -1507,12 +1507,16 @@ def _remove_all(ctx):
             o.refute(f, f.node, 'removal', "no matching task is removed: the call of `remove` for every match is missing")
             return
         for c in rem:
-            if not c.args or not isinstance(c.args[0], ast.Name):
+            if wbs and unmangle(c.func.attr) == '__remove':
+                cargs = facts.bound_args(c, prog.func('wbs.WBS.__remove'))
+            else:
+                cargs = list(c.args) + [k.value for k in c.keywords if k.arg == 'task']
+            if not cargs or not isinstance(cargs[0], ast.Name):
                 o.undecided(f, c, c, "removal call without a plain task variable")
                 continue
-            var = c.args[0].id
+            var = cargs[0].id
             if wbs and unmangle(c.func.attr) == '__remove':
-                if len(c.args) != 2 or not match(f"{SELF}._WBS__root", ex.expand(c.args[1])):
+                if len(cargs) != 2 or cargs[1] is None or not match(f"{SELF}._WBS__root", ex.expand(cargs[1])):
                     o.undecided(f, c, c, "the tree walk does not start at the root of the WBS")
                     continue
             cn = cfg.node_containing(c)
@@ -1620,40 +1624,73 @@ def _remove_all(ctx):
             return
         SELF, TASK, CUR = f.params
         cfg = cfg_of(f)
-        direct = [c for c in facts.calls_named(f, 'remove') if match(f"{CUR}.children.remove({TASK})", c)]
-        if not direct:
+        ex = Expander(prog, f, ctx.typer, inline=False)
+
+        def is_children(e):
+            return bool(match(f"{CUR}.children", e) or match(f"{CUR}._Task__children", e))
+
+        def is_direct(c):
+            """`<current>.children.remove(<task>)`, the children list possibly held in a local"""
+            if not (isinstance(c, ast.Call) and isinstance(c.func, ast.Attribute) and c.func.attr == 'remove' and len(c.args) == 1
+                    and not c.keywords and match(TASK, c.args[0])):
+                return False
+            cn = cfg.node_containing(c)
+            return is_children(ex.expand(c.func.value, cn) if cn is not None else c.func.value)
+
+        all_removes = [c for c in facts.calls_named(f, 'remove')]
+        direct = [c for c in all_removes if is_direct(c)]
+        if direct:
+            o.site(f, direct[0], src(direct[0]))
+        elif not all_removes:
             o.refute(f, f.node, 'children.remove', f"the tree walk never removes the task from the current node's children "
                                                    f"(`{CUR}.children.remove({TASK})` missing)")
         else:
-            o.site(f, direct[0], src(direct[0]))
+            o.undecided(f, all_removes[0], all_removes[0], f"`{src(all_removes[0])}` is not recognised as `{CUR}.children.remove({TASK})`")
         rec = [c for c in facts.calls_named(f, '__remove') if isinstance(c.func, ast.Attribute) and match(SELF, c.func.value)]
         if not rec:
             o.refute(f, f.node, 'recursion', "the tree walk does not descend into the children: only root tasks can be removed")
             return
         for c in rec:
             cn = cfg.node_containing(c)
-            if len(c.args) != 2 or not match(TASK, c.args[0]) or not isinstance(c.args[1], ast.Name) or cn is None:
+            cargs = facts.bound_args(c, f)
+            if len(cargs) != 2 or cargs[0] is None or not match(TASK, cargs[0]) or not isinstance(cargs[1], ast.Name) or cn is None:
                 o.undecided(f, c, c, "recursive call in an unexpected shape")
                 continue
-            fors = [fo for fo in [_enclosing_for(f, c, c.args[1].id)] if fo is not None]
-            if not fors:
-                o.undecided(f, c, c, "recursive call not inside a loop over the children")
-                continue
-            w = _whole(fors[-1].iter, lambda e: bool(match(f"{CUR}.children", e) or match(f"{CUR}._Task__children", e)))
-            if w is None:
-                o.undecided(f, fors[-1], fors[-1].iter, "the walk does not iterate `current.children`")
-            elif w != 'whole':
-                o.refute(f, fors[-1], fors[-1].iter, f"the tree walk skips subtrees: {w[1]}")
+            child = cargs[1].id
+            comp = _enclosing_comp(f, c, child)
+            fo = _enclosing_for(f, c, child)
+            if comp is not None:
+                # any(self.__remove(task, ch) for ch in current.children): stops at the first subtree that contained the task
+                g = next(g for g in comp.generators if isinstance(g.target, ast.Name) and g.target.id == child)
+                it, loop_node = ex.expand(g.iter, cn), comp
+                filt = list(g.ifs)
+                text = f"{src(c)} for {child} in {src(it)}"
+            elif fo is not None:
+                it, loop_node, filt = ex.expand(fo.iter, cfg.node_of(fo)), fo, []
+                text = f"for {child} in {src(it)}: {src(c)}"
             else:
-                # allowed: "the task was not found among the current node's children" and the None pre-check
-                bad = [(t, p) for t, p in facts.node_conditions(prog, f, c, ctx.typer)
-                       if not (any(match(f"{CUR}.children.remove({TASK})", x) for x in ast.walk(t)) and
-                               not (names_in(t) - {CUR, TASK}) and not p) and
-                       not (match(f"{TASK} is None", t) and not p)]
-                if bad:
-                    o.undecided(f, c, c, "the descent is conditional: " + ', '.join(facts.cond_texts(bad)))
-                else:
-                    o.site(f, c, f"for {c.args[1].id} in {src(fors[-1].iter)}: {src(c)}")
+                o.undecided(f, c, c, "recursive call not inside a loop / comprehension over the children")
+                continue
+            w = _whole(it, is_children)
+            if w is None:
+                o.undecided(f, loop_node, it, "the walk does not iterate `current.children`")
+                continue
+            if w != 'whole' or filt:
+                why = w[1] if w != 'whole' else "comprehension filter `" + ' and '.join(src(x) for x in filt) + "`"
+                o.refute(f, loop_node, it, f"the tree walk skips subtrees: {why}")
+                continue
+            # allowed: "the task was not found among the current node's children" and the None pre-check
+            bad = [(t, p) for t, p in facts.node_conditions(prog, f, c, ctx.typer)
+                   if not (any(is_direct_text(x) for x in ast.walk(t)) and not (names_in(t) - {CUR, TASK}) and not p) and
+                   not (match(f"{TASK} is None", t) and not p)]
+            if bad:
+                o.undecided(f, c, c, "the descent is conditional: " + ', '.join(facts.cond_texts(bad)))
+            else:
+                o.site(f, c, text)
+
+    def is_direct_text(x):
+        return isinstance(x, ast.Call) and isinstance(x.func, ast.Attribute) and x.func.attr == 'remove' and \
+            isinstance(x.func.value, ast.Attribute) and x.func.value.attr in ('children', '_Task__children')
 
     def body(o):
         variant(o, 'task._TaskList.remove_all', False)
